@@ -21,7 +21,7 @@
 //! token numbers the *real* tokenizer produced, query text by the AST `QueryType::parse` produced,
 //! scores by the bit patterns the real code returned.
 
-use crate::conc::{COp, Workload, new_index, next_prefix, run_threads};
+use crate::conc::{COp, Workload, new_index, next_prefix, run_probe, run_threads};
 use crate::query::{Tree, ast_line, read_tree};
 use crate::store::{MemStore, W, decode_bucket, decode_meta};
 use anda_db_tfs::{BM25Config, BM25Index, BM25Params, BucketObject, QueryType, TokenizerChain, collect_tokens, default_tokenizer};
@@ -1099,7 +1099,7 @@ impl<'m> World<'m> {
             let mut runs = 0u64;
             let mut exhausted = false;
             loop {
-                let Some((sched, enabled)) = self.run_conc(w, &prefix, prefer_last) else { break };
+                let Some((sched, enabled)) = self.run_conc(w, &prefix, prefer_last, None) else { break };
                 runs += 1;
                 self.res.schedules += 1;
                 if self.stop || !self.res.oracle.is_empty() {
@@ -1128,12 +1128,31 @@ impl<'m> World<'m> {
             }
         }
         self.hit(&format!("conc:{}", if complete { "exhaustive" } else { "capped" }));
+        // the explorer keeps the gate's book itself, so the schedules above never try to run a
+        // mutation inside a compaction (or vice versa). That the gate really excludes is probed
+        // separately: release a worker at its `.gate` point while the other one is inside.
+        if w.threads.len() == 2 && w.threads.iter().any(|t| t.exclusive()) && !self.stop && self.res.oracle.is_empty() {
+            for h in 0..2 {
+                for s in 1..32 {
+                    match self.run_conc(w, &[], false, Some((h, s))) {
+                        Some(_) => {
+                            self.res.schedules += 1;
+                            self.hit("conc:gate-probe");
+                        }
+                        None => break,
+                    }
+                    if self.stop || !self.res.oracle.is_empty() {
+                        break;
+                    }
+                }
+            }
+        }
         complete
     }
 
     /// one schedule: fresh index, sequential setup + flush, the threads under the schedule, then
     /// results / final answers / flush round trip against the oracle and the model
-    fn run_conc(&mut self, w: &Workload, prefix: &[usize], prefer_last: bool) -> Option<(Vec<usize>, Vec<Vec<usize>>)> {
+    fn run_conc(&mut self, w: &Workload, prefix: &[usize], prefer_last: bool, probe: Option<(usize, usize)>) -> Option<(Vec<usize>, Vec<Vec<usize>>)> {
         let what_base = w.line();
         self.cfg = BM25Config { bucket_overload_size: if w.zero { 0 } else { BM25Config::default().bucket_overload_size }, ..BM25Config::default() };
         let index = new_index(w.zero);
@@ -1165,8 +1184,23 @@ impl<'m> World<'m> {
             let line = format!("cthr {}", self.cop_model(op));
             self.corr(&what_base, &line, "ok");
         }
-        let out = run_threads(std::sync::Arc::new(index), &w.threads, prefix, prefer_last);
-        let what = format!("{what_base} | schedule {}", join(out.sched.iter(), ","));
+        let (out, gate_broken) = match probe {
+            None => (run_threads(std::sync::Arc::new(index), &w.threads, prefix, prefer_last), false),
+            Some((h, s)) => match run_probe(std::sync::Arc::new(index), &w.threads, h, s) {
+                Some(x) => x,
+                None => {
+                    // nothing left to probe: forget the threads the model was given
+                    if let Some(m) = self.model.as_deref_mut() {
+                        m.ask("cinit large");
+                    }
+                    return None;
+                }
+            },
+        };
+        let what = format!("{what_base} | schedule {}{}", join(out.sched.iter(), ","), if probe.is_some() { " (gate probe)" } else { "" });
+        if gate_broken {
+            self.oracle("conc-gate-not-exclusive", &what, "a worker released at its gate point waits while the other one is inside".into(), "it went on".into());
+        }
         self.res.canon.push_str(&what);
         self.res.canon.push('\n');
         if let Some(d) = &out.deadlock {
